@@ -128,7 +128,7 @@ def hook(b, ev, named, key, info):
         elif op == 'fill_to' and 'fill' in info:
             check_fill(b, ev, info['fill'], named[0][1], key)
         elif op == 'solution':
-            check_solution(b, ev, named, key)
+            check_solution(b, ev, named, key, info)
         elif op == 'solution_from':
             check_solution_from(b, ev, named, key)
     finally:
@@ -300,7 +300,7 @@ def check_fill(b, ev, finfo, res, key):
             return
 
 
-def check_solution(b, ev, named, key):
+def check_solution(b, ev, named, key, info=None):
     W = b.world
     sol = named[-1][1]
     text = sol.instructions
@@ -312,13 +312,19 @@ def check_solution(b, ev, named, key):
         head, _, tail = text.partition(' to ')
         m = re.match(NUM + r' (\S+) of (.+)\.$', tail)
         post = W.alpha_container(sol)
-        solutes_only = M.MVessel('x', None, {n: post.contents.get(n, F(0)) for n in ev['solutes']})
+        came = {}
+        if len(named) == 2:
+            prev = (info or {}).get('solvent_pre')      # the solvent container as it was handed in
+            if prev is not None:
+                pm, rm = W.alpha_container(prev), W.alpha_container(named[0][1])
+                came = {n: pm.contents.get(n, F(0)) - rm.contents.get(n, F(0)) for n in pm.contents}
+        solutes_only = M.MVessel('x', None, {n: post.contents.get(n, F(0)) - came.get(n, F(0)) for n in ev['solutes']})
         check_items(b, head, solutes_only, key, 'solution_amount', sol.name)
         if m and len(named) == 2:
             shown, unit, _name = m.groups()
             resid = W.alpha_container(named[0][1])
             # volume drawn from the solvent container = what the solution holds beyond the added solutes
-            rest = M.MVessel('y', None, {n: a for n, a in post.contents.items() if n not in ev['solutes']})
+            rest = M.MVessel('y', None, came if came else {n: a for n, a in post.contents.items() if n not in ev['solutes']})
             exact = W.model.volume(rest)
             mult, base = M.split_unit(unit)
             if base == 'L':
